@@ -2,6 +2,7 @@ package main
 
 import (
 	"fmt"
+	"os"
 	"go/token"
 	"go/types"
 	"sort"
@@ -909,6 +910,70 @@ func mapOrderReasons(fn *ssa.Function, seen map[*ssa.Function]bool) []string {
 		for _, in := range b.Instrs {
 			if mc, ok := in.(*ssa.MakeClosure); ok {
 				out = append(out, mapOrderReasons(mc.Fn.(*ssa.Function), seen)...)
+			}
+			if ci, ok := in.(ssa.CallInstruction); ok {
+				callee := ci.Common().StaticCallee()
+				calleePath := ""
+				if callee != nil {
+					if callee.Pkg != nil {
+						calleePath = callee.Pkg.Pkg.Path()
+					} else if o := callee.Origin(); o != nil && o.Pkg != nil {
+						calleePath = o.Pkg.Pkg.Path()
+					}
+				}
+				if os.Getenv("TVC_DEBUG_MAPORDER") != "" {
+					fmt.Fprintf(os.Stderr, "maporder: %s calls %v (static %v, path %q)\n", funcKey(fn), ci.Common().Value, callee != nil, calleePath)
+				}
+				if callee != nil && !strings.HasPrefix(calleePath, repoModule) {
+					nm := callee.String()
+					for { // drop every (innermost first) type-argument list
+						j := strings.Index(nm, "]")
+						if j < 0 {
+							break
+						}
+						i := strings.LastIndex(nm[:j], "[")
+						if i < 0 {
+							break
+						}
+						nm = nm[:i] + nm[j+1:]
+					}
+					for _, leak := range []string{".UnsortedList", "maps.Keys", "maps.Values", "lo.Keys", "lo.Values", "lo.MapToSlice", "lo.Entries", "lo.ToPairs"} {
+						if !strings.HasSuffix(nm, leak) {
+							continue
+						}
+						sorted := false
+						if v, isV := in.(ssa.Value); isV && v.Referrers() != nil {
+							work := []ssa.Value{v}
+							for d := 0; d < 4 && len(work) > 0 && !sorted; d++ {
+								var next []ssa.Value
+								for _, w := range work {
+									if w.Referrers() == nil {
+										continue
+									}
+									for _, ref := range *w.Referrers() {
+										switch r := ref.(type) {
+										case ssa.CallInstruction:
+											if c2 := r.Common().StaticCallee(); c2 != nil && (strings.HasPrefix(c2.String(), "sort.") || strings.HasPrefix(c2.String(), "slices.Sort")) {
+												sorted = true
+											}
+										case *ssa.MakeInterface:
+											next = append(next, r)
+										case *ssa.ChangeType:
+											next = append(next, r)
+										case *ssa.Convert:
+											next = append(next, r)
+										}
+									}
+								}
+								work = next
+							}
+						}
+						if !sorted {
+							pos := fn.Prog.Fset.Position(in.Pos())
+							out = append(out, fmt.Sprintf("call to %s at %s line %d yields its elements in map iteration order and the result is not sorted", nm, funcKey(fn), pos.Line))
+						}
+					}
+				}
 			}
 			nx, ok := in.(*ssa.Next)
 			if !ok {
